@@ -121,21 +121,37 @@ Proof. exists 1, [1; 1], [1; 0]. split; [lra|]. split; [repeat constructor; lra|
   unfold var_share. lra. Qed.
 
 (* ------------------------------------------------------------------ the bias test *)
-Lemma criteria_giles_spec alpha m3 m2 m1 rmse :
-  criteria_giles alpha m3 m2 m1 rmse = true <-> giles_rem alpha m3 m2 m1 <= sqrt (1 / 4) * rmse.
+Lemma criteria_giles_spec alpha ml rmse :
+  criteria_giles alpha ml rmse = true <-> giles_rem alpha ml <= sqrt (1 / 4) * rmse.
 Proof. unfold criteria_giles, giles_rem. rewrite Rleb_true. reflexivity. Qed.
 
 Lemma sqrt_quarter : sqrt (1 / 4) = 1 / 2.
 Proof. replace (1 / 4) with (1 / 2 * (1 / 2)) by field. apply sqrt_square. lra. Qed.
 
-(* squared bias tolerance + variance share = rmse^2: whenever the bias test passes on a non-negative bias
-   estimate, bias^2 + (1 - theta) rmse^2 <= rmse^2 *)
-Theorem bias_plus_variance alpha m3 m2 m1 rmse : 0 <= rmse -> 0 <= giles_rem alpha m3 m2 m1 ->
-  criteria_giles alpha m3 m2 m1 rmse = true ->
-  (giles_rem alpha m3 m2 m1) ^ 2 + var_share rmse <= rmse ^ 2
+Lemma nth_nonneg (l : list R) k : Forall (fun m => 0 <= m) l -> 0 <= nth k l 0.
+Proof. intros H. revert k. induction H; intros [|k]; simpl; try lra; auto. Qed.
+
+(* for absolute level means and a weak rate with 2^alpha > 1 (alpha > 0) the bias estimate is non-negative;
+   for alpha = 0 the code divides by zero (inf/nan -> False), the real-number model is not meaningful there *)
+Lemma giles_rem_nonneg alpha ml : Forall (fun m => 0 <= m) ml -> 1 < Rpower 2 alpha -> 0 <= giles_rem alpha ml.
+Proof. intros H Ha. unfold giles_rem.
+  assert (H1 : 0 <= nth (length ml - 1) ml 0) by now apply nth_nonneg.
+  set (r1 := nth (length ml - 1) ml 0) in *.
+  set (r2 := if Nat.leb 2 (length ml) then Rmax r1 (nth (length ml - 2) ml 0 / Rpower 2 alpha) else r1).
+  assert (H2 : 0 <= r2) by (unfold r2; destruct (Nat.leb 2 (length ml)); [eapply Rle_trans; [exact H1|apply Rmax_l]|exact H1]).
+  set (r3 := if Nat.leb 3 (length ml) then Rmax r2 (nth (length ml - 3) ml 0 / Rpower 2 (2 * alpha)) else r2).
+  assert (H3 : 0 <= r3) by (unfold r3; destruct (Nat.leb 3 (length ml)); [eapply Rle_trans; [exact H2|apply Rmax_l]|exact H2]).
+  apply Rmult_le_pos; [exact H3|]. apply Rlt_le, Rinv_0_lt_compat. lra. Qed.
+
+(* squared bias tolerance + variance share = rmse^2: whenever the bias test passes (level means >= 0, 2^alpha > 1),
+   bias^2 + (1 - theta) rmse^2 <= rmse^2 *)
+Theorem bias_plus_variance alpha ml rmse : 0 <= rmse -> Forall (fun m => 0 <= m) ml -> 1 < Rpower 2 alpha ->
+  criteria_giles alpha ml rmse = true ->
+  (giles_rem alpha ml) ^ 2 + var_share rmse <= rmse ^ 2
   /\ (sqrt (1 / 4) * rmse) ^ 2 + var_share rmse = rmse ^ 2.
-Proof. intros Hr H0 Hc. apply criteria_giles_spec in Hc. rewrite sqrt_quarter in *. unfold var_share. split; [|field].
-  assert (giles_rem alpha m3 m2 m1 ^ 2 <= (1 / 2 * rmse) ^ 2) by (apply pow_incr; lra). nra. Qed.
+Proof. intros Hr Hm Ha Hc. pose proof (giles_rem_nonneg alpha ml Hm Ha) as H0.
+  apply criteria_giles_spec in Hc. rewrite sqrt_quarter in *. unfold var_share. split; [|field].
+  assert (giles_rem alpha ml ^ 2 <= (1 / 2 * rmse) ^ 2) by (apply pow_incr; lra). nra. Qed.
 
 (* the tolerance before the repair (rmse / sqrt 2) did not fit: 1/2 + 3/4 > 1 *)
 Lemma bias_plus_variance_before_repair rmse : 0 < rmse -> rmse ^ 2 < (rmse / sqrt 2) ^ 2 + var_share rmse.
